@@ -23,6 +23,8 @@ pub struct ExBufReader<R: ?Sized>(std::io::BufReader<R>);
 
 pub assume_specification [std::io::Error::kind](e: &std::io::Error) -> (r: std::io::ErrorKind)
     ensures r == vx_kind(e);
+pub assume_specification [<std::io::Error as From<std::io::ErrorKind>>::from](k: std::io::ErrorKind) -> (r: std::io::Error)
+    ensures vx_kind(&r) == k;
 pub assume_specification [<std::io::ErrorKind as PartialEq>::eq](a: &std::io::ErrorKind, b: &std::io::ErrorKind) -> (r: bool)
     ensures r == (*a == *b);
 
@@ -81,25 +83,43 @@ impl From<std::io::Error> for crate::anyhow::Error {
 verus! {
 /// bytes of the file on disk
 pub uninterp spec fn fcontent(f: &std::fs::File) -> Seq<u8>;
+/// the handle writes at the end of the file whatever its cursor says (O_APPEND), or it is a freshly created empty file
+pub uninterp spec fn f_appends(f: &std::fs::File) -> bool;
 /// a File opened for append: everything in it counts as written through it (appends go to the end)
 pub broadcast axiom fn ax_written_file(f: &std::fs::File)
+    requires f_appends(f)
     ensures #[trigger] vx_written(f) == fcontent(f);
 /// R9 wrappers (trusted; contracts are the std documentation restricted to what db::open relies on)
 /// what is on disk under a path when db::open is entered
 pub uninterp spec fn disk(path: &std::path::Path) -> Seq<u8>;
 #[verifier::external_body]
 pub fn vx_open_rw_append(path: &std::path::Path) -> (r: std::io::Result<std::fs::File>)
-    ensures r is Ok ==> fcontent(&r->Ok_0) == disk(path)
+    ensures r is Ok ==> fcontent(&r->Ok_0) == disk(path) && f_appends(&r->Ok_0)
 { std::fs::OpenOptions::new().read(true).append(true).open(path) }
+/// read+write without append: writes land at the cursor, which reading moves; nothing is known about where they end up
+#[verifier::external_body]
+pub fn vx_open_rw(path: &std::path::Path) -> (r: std::io::Result<std::fs::File>)
+    ensures r is Ok ==> fcontent(&r->Ok_0) == disk(path)
+{ std::fs::OpenOptions::new().read(true).write(true).open(path) }
 #[verifier::external_body]
 pub fn vx_file_create(path: &std::path::Path) -> (r: std::io::Result<std::fs::File>)
-    ensures r is Ok ==> fcontent(&r->Ok_0).len() == 0
+    ensures r is Ok ==> fcontent(&r->Ok_0).len() == 0 && f_appends(&r->Ok_0)
 { std::fs::File::create(path) }
 /// BufReader::new(&mut file) on a freshly opened file: reads start at offset 0; reading does not change the content
 #[verifier::external_body]
 pub fn vx_bufreader_new<'a>(f: &'a mut std::fs::File) -> (r: std::io::BufReader<&'a mut std::fs::File>)
-    ensures vx_unread(&r) == fcontent(old(f)), vx_consumed(&r) == 0, fcontent(final(f)) == fcontent(old(f))
+    ensures vx_unread(&r) == fcontent(old(f)), vx_consumed(&r) == 0, fcontent(final(f)) == fcontent(old(f)), f_appends(final(f)) == f_appends(old(f))
 { std::io::BufReader::new(f) }
+/// `r.by_ref().take(limit).read_to_end(buf)`: appends min(limit, unread) bytes to buf and reports how many;
+/// running out of input is NOT an error here (std documentation of Take / read_to_end); same no-I/O-error assumption as ExRead
+#[verifier::external_body]
+pub fn vx_take_read_to_end<R: std::io::Read>(r: &mut R, limit: u64, buf: &mut Vec<u8>) -> (res: std::io::Result<usize>)
+    ensures res is Ok,
+        ({ let n = if (limit as int) < vx_unread(old(r)).len() { limit as int } else { vx_unread(old(r)).len() as int };
+           res->Ok_0 == n && final(buf)@ == old(buf)@ + vx_unread(old(r)).subrange(0, n)
+           && vx_unread(final(r)) == vx_unread(old(r)).subrange(n, vx_unread(old(r)).len() as int)
+           && vx_consumed(final(r)) == vx_consumed(old(r)) + n }),
+{ use std::io::Read; r.by_ref().take(limit).read_to_end(buf) }
 #[verifier::external_body]
 pub fn vx_file_len(f: &std::fs::File) -> (r: std::io::Result<u64>)
     ensures r is Ok ==> r->Ok_0 == fcontent(f).len()
@@ -107,7 +127,8 @@ pub fn vx_file_len(f: &std::fs::File) -> (r: std::io::Result<u64>)
 #[verifier::external_body]
 pub fn vx_set_len(f: &mut std::fs::File, n: u64) -> (r: std::io::Result<()>)
     requires n <= fcontent(old(f)).len()
-    ensures r is Ok ==> fcontent(final(f)) == fcontent(old(f)).take(n as int), r is Err ==> fcontent(final(f)) == fcontent(old(f))
+    ensures r is Ok ==> fcontent(final(f)) == fcontent(old(f)).take(n as int), r is Err ==> fcontent(final(f)) == fcontent(old(f)),
+        f_appends(final(f)) == f_appends(old(f))
 { f.set_len(n) }
 }
 
